@@ -415,6 +415,119 @@ func (c *Ctx) writeSummaries() writeSummary {
 	return sum
 }
 
+// atomicOnlyParams: pointer parameters of module functions that are used for nothing but sync/atomic operations
+// (directly, or handed on to another such parameter), with the operations they are used with. A call that passes a
+// field's address at such a position is an atomic access to the field by those operations.
+func atomicOnlyParams(c *Ctx) map[*ssa.Function]map[int][]string {
+	if c.atomicParams != nil {
+		return c.atomicParams
+	}
+	type key struct {
+		fn *ssa.Function
+		i  int
+	}
+	state := map[key][]string{} // candidate -> ops; deleted when disqualified
+	for _, fn := range c.Funcs {
+		for i, p := range fn.Params {
+			if _, ok := p.Type().Underlying().(*types.Pointer); ok && p.Referrers() != nil && len(*p.Referrers()) > 0 {
+				state[key{fn, i}] = nil
+			}
+		}
+	}
+	for changed := true; changed; {
+		changed = false
+		for k := range state {
+			var ops []string
+			ok := true
+			for _, ref := range *k.fn.Params[k.i].Referrers() {
+				switch x := ref.(type) {
+				case *ssa.DebugRef:
+				case ssa.CallInstruction:
+					id := calleeID(x)
+					args := x.Common().Args
+					if strings.HasPrefix(id, "sync/atomic.") && len(args) > 0 && args[0] == ssa.Value(k.fn.Params[k.i]) {
+						ops = append(ops, id)
+						continue
+					}
+					g := staticCallee(x)
+					handed := false
+					if g != nil {
+						for j, a := range args {
+							if a == ssa.Value(k.fn.Params[k.i]) {
+								if sub, is := state[key{g, j}]; is {
+									handed = true
+									ops = append(ops, sub...)
+								} else {
+									handed = false
+									break
+								}
+							}
+						}
+					}
+					if !handed {
+						ok = false
+					}
+				default:
+					ok = false
+				}
+			}
+			if !ok || len(ops) == 0 {
+				// a parameter only handed on to candidates that have no operation yet stays a candidate for another round
+				if !ok {
+					delete(state, k)
+					changed = true
+				}
+				continue
+			}
+			ops = dedup(ops)
+			if strings.Join(ops, ",") != strings.Join(state[k], ",") {
+				state[k] = ops
+				changed = true
+			}
+		}
+	}
+	out := map[*ssa.Function]map[int][]string{}
+	for k, ops := range state {
+		if len(ops) == 0 {
+			continue
+		}
+		if out[k.fn] == nil {
+			out[k.fn] = map[int][]string{}
+		}
+		out[k.fn][k.i] = ops
+	}
+	c.atomicParams = out
+	return out
+}
+
+// atomicOpsAt: the sync/atomic operations a call performs on the value v it is given (directly or through an
+// atomic-only parameter of a module function); nil when the call does something else with it.
+func atomicOpsAt(c *Ctx, ci ssa.CallInstruction, v ssa.Value) []string {
+	id := calleeID(ci)
+	args := ci.Common().Args
+	if strings.HasPrefix(id, "sync/atomic.") {
+		if len(args) > 0 && args[0] == v {
+			return []string{id}
+		}
+		return nil
+	}
+	g := staticCallee(ci)
+	if g == nil {
+		return nil
+	}
+	var ops []string
+	for j, a := range args {
+		if a == v {
+			sub := atomicOnlyParams(c)[g][j]
+			if len(sub) == 0 {
+				return nil
+			}
+			ops = append(ops, sub...)
+		}
+	}
+	return dedup(ops)
+}
+
 // ---------- C08 ----------
 
 func runC08(c *Ctx, r *Report) {
@@ -430,6 +543,8 @@ func runC08(c *Ctx, r *Report) {
 	c08WrapStorage(c, r, "C08.R15")
 	c08PoolReset(c, r, "C08.R16")
 	c08SharedReplacer(c, r, "C08.R17")
+	c08PoolNewFresh(c, r, "C08.R18")
+	c09R2(c, r, "C08.R19") // a client talks to its own association only: the table of associations belongs to one socket's loop and is keyed by the client address alone within it
 	c08QuicAddr(c, r, "C08.R11")
 	c09R6(c, r, "C08.R12")     // a UDP client never reads another client's datagram: queued datagram records do not alias
 	c17Handle(c, r, "C08.R10") // per-connection state of a handler (the throttle's own limiter) is built per connection, only the handler-wide limiter is shared
@@ -445,7 +560,20 @@ func c08R1(c *Ctx, r *Report, rule string) {
 	}
 	for _, fn := range c.Funcs {
 		for _, ci := range callsIn(fn) {
-			if !isAtomicCall(ci) || len(ci.Common().Args) == 0 {
+			if len(ci.Common().Args) == 0 {
+				continue
+			}
+			if !isAtomicCall(ci) {
+				// a helper that does nothing but atomic operations on the pointer it is given
+				for _, a := range ci.Common().Args {
+					if len(atomicOpsAt(c, ci, a)) > 0 {
+						if _, sn, f, ok := fieldAddr(a); ok {
+							atomicFields[sn+"."+f] = c.ipos(ci)
+						} else if g, ok := a.(*ssa.Global); ok {
+							atomicFields["global "+globalName(g)] = c.ipos(ci)
+						}
+					}
+				}
 				continue
 			}
 			if _, sn, f, ok := fieldAddr(ci.Common().Args[0]); ok {
@@ -480,7 +608,7 @@ func c08R1(c *Ctx, r *Report, rule string) {
 						continue
 					}
 					for _, ref := range *addr.Referrers() {
-						if ci, ok := ref.(ssa.CallInstruction); ok && isAtomicCall(ci) {
+						if ci, ok := ref.(ssa.CallInstruction); ok && (isAtomicCall(ci) || len(atomicOpsAt(c, ci, addr)) > 0) {
 							continue
 						}
 						if _, ok := ref.(*ssa.DebugRef); ok {
@@ -1023,7 +1151,10 @@ func runC09(c *Ctx, r *Report) {
 	c09CloseIdentity(c, r, "C09.R17")
 	c09DatagramNotDropped(c, r, "C09.R18")
 	c09UDPPoolLength(c, r, "C09.R19")
-	c05R7(c, r, "C09.R12")  // setting the deadline of a virtual connection never blocks (the association's handler, its queue and then the server loop would wait with it)
+	c09CloseOnce(c, r, "C09.R20")
+	c09DiscardOnlyUnaddressed(c, r, "C09.R21")
+	c05UDPWaits(c, r, "C09.R22")    // a wait that nothing but a datagram ends keeps the association (and its table entry) for ever
+	c05R7(c, r, "C09.R12")          // setting the deadline of a virtual connection never blocks (the association's handler, its queue and then the server loop would wait with it)
 	c05UDPDeadline(c, r, "C09.R13") // ... and arms the timer that wakes a waiting Read
 }
 
@@ -1303,6 +1434,55 @@ func c09R4(c *Ctx, r *Report, rule string) {
 				}
 			}
 		}
+		// the hand-over as a method of the association (or a helper given it): the send is on the queue of the value
+		// the loop passes
+		for _, ci := range callsIn(fn) {
+			call, ok := ci.(*ssa.Call)
+			if !ok {
+				continue
+			}
+			g := call.Call.StaticCallee()
+			if g == nil || g.Pkg != fn.Pkg || len(g.Blocks) == 0 {
+				continue
+			}
+			for _, b := range g.Blocks {
+				for _, in := range b.Instrs {
+					var chans []ssa.Value
+					blocking := true
+					switch x := in.(type) {
+					case *ssa.Send:
+						chans = append(chans, x.Chan)
+					case *ssa.Select:
+						for _, st := range x.States {
+							if st.Dir == types.SendOnly {
+								chans = append(chans, st.Chan)
+								blocking = x.Blocking
+							}
+						}
+					}
+					for _, ch := range chans {
+						if chanID(ch) != "field layer4.packetConn.readCh" {
+							continue
+						}
+						mapped := false
+						for _, rt := range addrRoots(ch) {
+							if pr, ok := rt.(*ssa.Parameter); ok {
+								if j := paramIndex(g, pr); j >= 0 && j < len(call.Call.Args) {
+									sends = append(sends, call.Call.Args[j])
+									mapped = true
+								}
+							}
+						}
+						if !mapped {
+							sends = append(sends, ch)
+						}
+						if !blocking {
+							nonBlocking = true
+						}
+					}
+				}
+			}
+		}
 		good := len(sends) == 1 && !nonBlocking
 		detail := fmt.Sprintf("%d sends to per-client queues per loop iteration (non-blocking: %v)", len(sends), nonBlocking)
 		if good {
@@ -1519,6 +1699,40 @@ func c09R6(c *Ctx, r *Report, rule string) {
 		}
 		for _, a := range f.AnonFuncs {
 			scan(a)
+		}
+		// a helper of the package called in place from a loop: what it sends of its parameters is what the caller
+		// passes, sent where the call stands
+		for _, ci := range callsIn(f) {
+			call, ok := ci.(*ssa.Call)
+			if !ok {
+				continue
+			}
+			g := call.Call.StaticCallee()
+			if g == nil || g.Pkg != f.Pkg || len(g.Blocks) == 0 || g == f || !inLoop(call.Block()) {
+				continue
+			}
+			for _, b := range g.Blocks {
+				for _, in := range b.Instrs {
+					var pairs [][2]ssa.Value
+					switch x := in.(type) {
+					case *ssa.Send:
+						pairs = append(pairs, [2]ssa.Value{x.Chan, x.X})
+					case *ssa.Select:
+						for _, st := range x.States {
+							if st.Dir == types.SendOnly {
+								pairs = append(pairs, [2]ssa.Value{st.Chan, st.Send})
+							}
+						}
+					}
+					for _, pr := range pairs {
+						if pp, ok := pr[1].(*ssa.Parameter); ok {
+							if j := paramIndex(g, pp); j >= 0 && j < len(call.Call.Args) {
+								sends = append(sends, sendSite{pr[0], call.Call.Args[j], call, f})
+							}
+						}
+					}
+				}
+			}
 		}
 		// goroutines started as functions of their own
 		for _, ci := range callsIn(f) {
@@ -1761,6 +1975,8 @@ func runC13(c *Ctx, r *Report) {
 	defer c13StatesAppended(c, r, "C13.R16")
 	defer c08R6(c, r, "C13.R17")               // the consumer reads the client's stream from its first byte: a connection of the wrapper starts with an empty matching buffer
 	defer c01TeeKeepsPipeOpen(c, r, "C13.R18") // a connection that falls through a tee to the wrapped listener is still read through the tee: the handler must not have closed the pipe
+	defer c01R5(c, r, "C13.R19")               // prefetched bytes are replayed to the consumer: a handler that hands on a new connection builds it on the connection it was given (Wrap of a wrapper that reads through it), not on the raw socket below the matching buffer
+	defer c06R4(c, r, "C13.R20")               // ... and replayed unaltered: nothing a matcher does writes into the matching buffer (a view of it is only read)
 	// R1
 	r.rule("C13.R1", "ListenerWrapper.Provision compiles its routes with listenerHandler as fallback", 1)
 	if fn := c.Fn("layer4.(*ListenerWrapper).Provision"); fn != nil {
